@@ -259,3 +259,30 @@ package main
 //@   calls auth.SaltToken#1: set sres = $r0
 //@   ensures result1 == nil ==> serr == nil && result0 != nil && result0.Arvados.ApiToken == sres
 //@   ensures result1 != nil ==> result0 == nil
+
+
+// ------------------------------------------- C01: comparing a stored copy
+// One read step of compareReaderWithBuf (goroutine body; it has finished when
+// the select takes the `ready` branch - sync clause below).
+//@ func compareReaderWithBuf$1 property C01
+//@   requires cursor(rdr) >= 0
+//@   modifies elems(buf) ghost:stream
+//@   ensures 0 <= n && n <= len(buf)
+//@   ensures cursor(rdr) == old(cursor(rdr)) + n && cursor(rdr) <= len(stream(rdr))
+//@   ensures string(buf[0:n]) == stream(rdr)[old(cursor(rdr)):cursor(rdr)]
+//@   ensures err == io.EOF ==> cursor(rdr) == len(stream(rdr))
+
+//@ func collisionOrCorrupt trusted
+//@   modifies all
+//@   ensures result != nil
+
+// compareReaderWithBuf: nil is returned only if the stored stream is exactly
+// the expected bytes - same length, same content; a truncated, extended or
+// altered copy gives an error.
+//@ func compareReaderWithBuf property C01 safety -bounds,-makeslice
+//@   requires cursor(rdr) == 0
+//@   sync go#1 at select#1
+//@   ensures result == nil ==> stream(rdr) == string(expect)
+//@   loop 1: invariant rdr == old(rdr) && expect == old(expect) && 0 <= cursor(rdr) && cursor(rdr) <= len(stream(rdr)) && cursor(rdr) + len(cmp) == len(expect) && cmp == expect[cursor(rdr):]
+//@   loop 1: invariant stream(rdr)[0:cursor(rdr)] == string(expect[0:cursor(rdr)])
+//@   loop 1: invariant forall k int :: 0 <= k && k < len(expect) ==> expect[k] == old(expect[k])
